@@ -32,7 +32,8 @@ SetMutations(m) ==
                              SetM(TVar(i, j), "units", IF m.comps[i].vars[j].units = "second" THEN "dimensionless" ELSE "second"),
                              SetM(TVar(i, j), "iface", IF m.comps[i].vars[j].iface = "public" THEN "private" ELSE "public")}
                             : j \in DOMAIN m.comps[i].vars}
-                \cup UNION {{SetM(TReset(i, j), "order", "99"), SetM(TReset(i, j), "id", "zzrid"), SetM(TReset(i, j), "var", "2"), SetM(TReset(i, j), "tvar", "2"),
+                \cup UNION {{SetM(TReset(i, j), "order", "99"), SetM(TReset(i, j), "order", IF m.comps[i].resets[j].order = "unset" THEN "0" ELSE "unset"),    \* order 0 is not "no order"
+                             SetM(TReset(i, j), "id", "zzrid"), SetM(TReset(i, j), "var", "2"), SetM(TReset(i, j), "tvar", "2"),
                              SetM(TReset(i, j), "tv", OtherMath), SetM(TReset(i, j), "tvid", "zztv"), SetM(TReset(i, j), "rv", OtherMath), SetM(TReset(i, j), "rvid", "zzrv")}
                             : j \in DOMAIN m.comps[i].resets}
                 : i \in DOMAIN m.comps}
